@@ -1,4 +1,34 @@
-import CV.Model.Core.Machine
+import CV.Proofs.CoreValue
+/-
+C04 - value layer.  `Val.set` is the function the machine calls for every non-None handler
+result (`setValue` in CV.Model.Core.Machine); these theorems say that whatever sequence of
+results the handlers of an event produce, the stored value is exactly the collapsed list of
+the property statement.  (Machine-level statements - which results are produced, feedback
+events - are in the sections below / still open, see DESIGN.md C04.)
+-/
 namespace CV.C04
-theorem placeholder : True := trivial
+open CV.Core
+
+/-- after the results `xs` have been stored, in order, into a fresh Value: unset for none,
+    the value itself for one, the list in production order for several -/
+theorem value_exact_layer (xs : List VItem) : (setAll {} xs).view = collapse xs := by
+  have hwf := setAll_wf {} xs Val.wf_init
+  rw [view_of_wf _ hwf, setAll_items {} xs Val.wf_init]
+  rfl
+
+/-- the same from any reachable Value: further results are appended, nothing is lost or reordered -/
+theorem value_accumulates (v : Val) (xs : List VItem) (h : v.WF) :
+    (setAll v xs).view = collapse (v.items ++ xs) := by
+  rw [view_of_wf _ (setAll_wf v xs h), setAll_items v xs h]
+
+/-- storing a result never touches the errors flag (it is set only where a handler raised) -/
+theorem set_keeps_errors (v : Val) (x : VItem) : (v.set x).errors = v.errors := Val.set_errors v x
+
+/-- a stored result marks the Value as having a result -/
+theorem set_marks_result (v : Val) (x : VItem) : (v.set x).result = true := Val.set_result v x
+
+example : (setAll {} [.val 3, .err, .val 5]).view = .many [.val 3, .err, .val 5] := by decide
+example : (setAll {} [.val 3]).view = .single (.val 3) := by decide
+example : (setAll {} []).view = .unset := by decide
+
 end CV.C04
